@@ -231,8 +231,11 @@ class Receiver:
                     TaskiqState: self.broker.state,
                 },
             )
+            # We pass a copy, because the broker's context is shared between
+            # all concurrently running tasks and sub-dependencies, that
+            # don't use cache, read it later than this point.
             dep_ctx = dependency_graph.async_ctx(
-                broker_ctx,
+                broker_ctx.copy(),
                 self.broker.dependency_overrides or None,
             )
             # Resolve all function's dependencies.
